@@ -20,7 +20,9 @@ META = {
             "judged by Trace_ParallelLoad!JudgeFiltered. Deferred streams (content filled in after the merge because their Length is a compressed object; pushed by the "
             "workers in completion order) are the variables defer/late/filled: TLC checks that every stream whose late read can succeed is filled in whatever the "
             "others do (AllFilled) and refutes a loader that stops at the first failure; on the real loader the order is forced ascending and descending through hook H2, "
-            "on files where one such stream has lost its Length.",
+            "on files where one such stream has lost its Length. Header numbers (hdr): two cross-reference entries may lead to object streams whose headers claim the "
+            "same number; blocks are ordered by (header number, entry) - TLC refutes the stable sort by header number alone, and byte-level variants with two object "
+            "streams under one header number are loaded under every forced order.",
     "note": "Trusted: TLC, the transcription of the parallel phase in ParallelLoad.tla, hooks H1 and H2 (src/verif_hooks.rs, 70 lines, compiled only with --cfg lopdf_verif), "
             "the FNV digest of the projection. Real thread schedules are sampled; the order in which blocks reach the merge is enumerated exhaustively for n <= 6.",
     "bins": ["c02", "c08"],
@@ -52,6 +54,12 @@ def run(tier):
     r = tlc("MC_ParallelLoad.tla", "MC_ParallelLoad_deferstop.cfg", workers=4, timeout=1800, allow_violation=True, name="pl-deferstop")
     if r.violation != "Deterministic":
         raise vlib.ToolError("vacuous: a loader that stops filling in at the first failure is not refuted by the model")
+    # object streams whose headers claim the same number: ordered by (header number, cross-reference entry)
+    r = tlc("MC_ParallelLoad.tla", "MC_ParallelLoad_hdr.cfg", workers=4, timeout=1800, name="pl-hdr")
+    chk.add_tlc(r)
+    r = tlc("MC_ParallelLoad.tla", "MC_ParallelLoad_hdrtie.cfg", workers=4, timeout=1800, allow_violation=True, name="pl-hdrtie")
+    if r.violation != "Deterministic":
+        raise vlib.ToolError("vacuous: a loader that leaves equal header numbers in completion order is not refuted by the model")
     r = tlc("MC_ParallelLoad.tla", "MC_ParallelLoad_asis.cfg", workers=4, timeout=1800, allow_violation=True, name="pl-asis")
     if r.violation != "Deterministic":
         raise vlib.ToolError("vacuous: the pre-repair merge (first block wins) is not refuted by the model")
@@ -107,6 +115,33 @@ def run(tier):
                         g["dupmember"] = True
                         dups.append(g)
                         done = True
+    # variants in which the header of the second object stream carries the NUMBER OF THE FIRST one (the cross-reference
+    # entries still lead to both): a loader that keys the blocks by header number must break the tie independently of
+    # which worker finishes first
+    samehdr = []
+    SEPH = rb"(?:[ \r\n\t\x0c\x00]|%[^\r\n]*[\r\n])+"
+    for f in files:
+        b = bytes(f["bytes"])
+        heads = []
+        for m in re.finditer(rb"(?<![0-9])(\d+)" + SEPH + rb"0" + SEPH + rb"obj", b):
+            body = b[m.end():m.end() + 400]
+            cut = min([x for x in (body.find(b"stream"), body.find(b"endobj")) if x >= 0] or [len(body)])
+            if b"/ObjStm" in body[:cut]:
+                heads.append(m)
+        done = False
+        for i in range(len(heads)):
+            for j in range(len(heads)):
+                a, c = heads[i].group(1), heads[j].group(1)
+                if i != j and len(a) == len(c) and a != c and not done:
+                    g = dict(f)
+                    g["bytes"] = list(b[:heads[j].start(1)] + a + b[heads[j].end(1):])
+                    g["samehdr"] = True
+                    samehdr.append(g)
+                    done = True
+    samehdr = samehdr[:15 if tier == "quick" else 120]
+    chk.extra["variants_with_two_object_streams_under_one_header_number"] = len(samehdr)
+    if len(samehdr) < 3:
+        raise vlib.ToolError("vacuous: fewer than 3 variants with two object streams under one header number")
     # variants of equal length in which every bare integer object (e.g. an indirect stream Length) holds another
     # value: loaded alternately with their originals from one buffer in the shared-buffer phase
     ivars = []
@@ -149,7 +184,7 @@ def run(tier):
     chk.extra["integer_object_variants"] = len(ivars[:12 if tier == "quick" else 100])
     if len(dups) < 3:
         raise vlib.ToolError("vacuous: fewer than 3 variants with a duplicated member number inside one object stream")
-    files = files + dups[:20 if tier == "quick" else 150]
+    files = files + dups[:20 if tier == "quick" else 150] + samehdr
     chk.extra["files_with_duplicate_member_in_one_stream"] = len(dups[:20 if tier == "quick" else 150])
     if sum(1 for f in files if f["ncomp"] >= 2) < 10:
         raise vlib.ToolError("vacuous: fewer than 10 generated files with >= 2 object streams")
@@ -191,7 +226,7 @@ def run(tier):
             forced += v["v"] == "ok-forced-order"
         else:
             chk.violation("C08:" + v["v"], {"schedule": {k: rec.get(k) for k in ("kind", "threads", "rep", "order", "observed", "filter", "sched", "dropset", "ids")},
-                                            "hash": rec["hash"], "seqhash": rec["seqhash"], "knobs": {k: f.get(k) for k in ("xref", "nrevs", "ncomp", "redefined", "ghost", "dupmember")},
+                                            "hash": rec["hash"], "seqhash": rec["seqhash"], "knobs": {k: f.get(k) for k in ("xref", "nrevs", "ncomp", "redefined", "ghost", "dupmember", "samehdr", "nolength")},
                                             "bytes": f["bytes"]})
     if forced < 50 and not chk.violations:
         raise vlib.ToolError("vacuous: only %d loads with a forced completion order" % forced)
